@@ -17,7 +17,7 @@ RULE = ("(1) every runtime block of ET/DT/ES (both Modbus framings; ES blocks of
         "style / field index, outcome class) tuples")
 ASSUMPTIONS = ["DT.read_settings_data() is outside the property's wording (it names ET and ES for the bulk settings read)",
                "a key may map to None; the key set must contain every id of the covered sensors/settings"]
-MUST = ["source_constants_as_register_contents", "single_setting_reads_vs_own_registers", "repeated_polls_all_ids", "time_field_ranges_checked", "settings_none_pattern_checked", "undecodable_value_read_twice", "stateful_decode_compared", "settings_registers_refused", "single_reads_after_capability_change", "blocks_decoded", "none_values_seen", "valueerror_paths_seen", "field_sweeps", "end_to_end_runtime",
+MUST = ["timestamp_fields_checked", "source_constants_as_register_contents", "single_setting_reads_vs_own_registers", "repeated_polls_all_ids", "time_field_ranges_checked", "settings_none_pattern_checked", "undecodable_value_read_twice", "stateful_decode_compared", "settings_registers_refused", "single_reads_after_capability_change", "blocks_decoded", "none_values_seen", "valueerror_paths_seen", "field_sweeps", "end_to_end_runtime",
         "end_to_end_settings", "single_reads", "es_short_blocks"]
 EXHAUSTIVE = {"quick": False, "thorough": True}
 
@@ -134,6 +134,17 @@ def fields_part(spec, part):
                     try:
                         sn.read_value(PR(bytes(b), None))
                         ok += 1
+                        if tname == "Timestamp":
+                            # an impossible date or time of day (month 13, 30 February, 24:00, minute 60 ...) has no value
+                            import calendar
+                            y_, mo_, d_, h_, mi_, s_ = b[0:6]
+                            possible = 1 <= mo_ <= 12 and 1 <= d_ <= calendar.monthrange(2000 + y_, mo_)[1] and h_ <= 23 and mi_ <= 59 and s_ <= 59
+                            if not possible:
+                                part.violate("C11/decode/impossible-date-accepted",
+                                             f"Timestamp.read_value({bytes(b).hex()}) returned a value for 20{y_:02d}-{mo_}-{d_} {h_}:{mi_}:{s_}",
+                                             {"field": True, "range": True, "type": tname, "bytes": bytes(b).hex()})
+                            else:
+                                part.count("timestamp_fields_checked")
                         if tname != "Timestamp":
                             # documented ranges of the time fields: hours 0..23 (48 = 'not set'), minutes 0..59; 12-byte groups also 0xFF = unset
                             hs, ms = (b[0], b[2]), (b[1], b[3])
